@@ -8,8 +8,8 @@ BASE_NOTE = ("Trusted: Lean kernel + Mathlib; tools/extract.py; the corresponden
 
 CLAIMS = {
  "C01": {
-  "text": "The Lean specification prover (Model/Prover.lean, rounds 1-5 as in prove_inner) and model verifier are executed next to the real code: for every constraint count around every power of two, SRS capacities exactly sufficient / one too small, all public-input placements and labels, the real proof must equal the model's proof byte for byte, both verifiers must accept, and the compressed and serialized key routes must give identical keys and proofs. 10 theorems: opening identity of the aggregated witness, capacity arithmetic of compile/trim (exact error condition), every committed polynomial fits the trimmed key, quotient shares recombine, transcript order prover/verifier agreement; verifier algebra in C03, quotient in C05.",
-  "note": BASE_NOTE + "Partial: pairing in the trapdoor view; the end-to-end theorem 'model prover output is accepted by the model verifier' is checked executably on every case (spec=ok) and proved only in its algebraic parts; degenerate blinders excluded as the property allows.",
+  "text": "25 theorems incl. the ALGEBRAIC COMPLETENESS composition (Props/C01Complete.lean: accumulator exists and permVec computes it, gate identities vanish for a satisfying assignment, numerator divisible with deg T <= 4n+6 so the four shares fit the n+7 key, the verifier equation holds for the model's own linearizationTerms/r0Eval and batched openings, prove's quotient passes the 7n test for n >= 3). The Lean specification prover (Model/Prover.lean, rounds 1-5 as in prove_inner) and model verifier are executed next to the real code: for every constraint count around every power of two, SRS capacities exactly sufficient / one too small, all public-input placements and labels, the real proof must equal the model's proof byte for byte, both verifiers must accept, and the compressed and serialized key routes must give identical keys and proofs. 10 theorems: opening identity of the aggregated witness, capacity arithmetic of compile/trim (exact error condition), every committed polynomial fits the trimmed key, quotient shares recombine, transcript order prover/verifier agreement; verifier algebra in C03, quotient in C05.",
+  "note": BASE_NOTE + "Partial: pairing in the trapdoor view; the completeness composition is proved at the algebraic level (same numerator as the soundness theorems of C02) and tied to `prove` by ProverMask; identifying every local of `prove` with the theorem arguments and the two Lagrange evaluations (hl1, hpi) remain hypotheses; gamma in the <= 4n-element denominator bad set is excluded (the Rust code asserts there).",
   "technique": TECH},
  "C02": {
   "text": "16 theorems (algebraic core with explicit bad-challenge sets: accumulator telescopes => grand product; identity at one point outside <= max(deg) roots lifts to the polynomial identity; a violated row defeats EVERY candidate quotient outside the bad set; challenge separation alpha / widget level; soundness_algebraic + soundness_witness: quotient identity at one good point => the extracted assignment satisfies the model's sysSat and has no copy violation; the verifier's linearisation identity IS the quotient identity; forged evaluations rejected (honest witness, model functions, and AGM form)). Deterministic core of soundness: the verifier model (transcript from bytes, regrouped MSM == textbook equation, trapdoor pairing) decides every adversarial proof exactly as the real verifier does: forced proofs of violating instances (hook), forged commitments/evaluations, splices, degenerate proofs are all rejected. Forced proofs also cover rows whose identity components cancel pairwise.",
@@ -17,7 +17,7 @@ CLAIMS = {
   "technique": TECH_W},
  "C03": {
   "text": "18 theorems about the model verifier: grouped MSM of Proof::verify / verify_legacy equals the textbook equation as a formal linear combination over any module; every linearisation scalar equals the widget identity; transcript operation list is injective in label, sizes, bound commitments, public inputs and proof elements; acceptance depends on nothing else. The model verifier recomputes Merlin/STROBE/Keccak challenges from bytes and must agree with the real verifier on every mutated proof (bit flips, field replacement, cross-circuit, splices).",
-  "note": BASE_NOTE + "Pairing decided in the trapdoor view (bilinearity assumed); sponge treated as random oracle; G1/G2 arithmetic of dusk-bls12_381 re-implemented and compared, not proved.",
+  "note": BASE_NOTE + "Pairing decided in the trapdoor view (bilinearity assumed); sponge treated as random oracle. The G1 arithmetic of the model IS proved (Props/G1Law.lean, 29 theorems: affine and Jacobian laws, scalar multiplication, Straus MSM refine Mathlib's Weierstrass group law; accept_iff_group_equation); G2 arithmetic re-implemented and compared, not proved.",
   "technique": TECH_W},
  "C04": {
   "text": "10 theorems: public-input length mismatch is rejected before anything else; changing any public input, label byte/length, bound key commitment, size or version flag changes the transcript operation list; version matrix of transcript/equation flags. Correspondence: every public-input mutation, near-miss circuit, label variant and version pair must be rejected by the real verifier exactly as by the model verifier, never accepted, never a panic.",
@@ -85,6 +85,6 @@ CLAIMS = {
   "technique": TECH},
  "C20": {
   "text": "33 theorems: commitment = p(x)*g (additive, zero, injective), single / aggregated / batched openings pass iff the claimed evaluations are true (explicit bad-challenge sets), pairing check <-> trapdoor equation for an abstract bilinear pairing; on the executable code: setup is a consistent sequence of powers of one secret with matching G2 element, trim keeps a sufficient prefix, degree guard, empty/mismatched batches rejected. Correspondence: setup bytes, commitments byte for byte, batch decisions via the trapdoor.",
-  "note": BASE_NOTE + "Group law of the executable G1 model is not proved (abstract module level; tied differentially). Binding against adversarial witnesses is computational, not claimed.",
+  "note": BASE_NOTE + "Group law of the executable G1 model is proved (Props/G1Law.lean: add/neg/double/Jacobian/smul/msum refine Mathlib's elliptic-curve group). Binding against adversarial witnesses is computational, not claimed.",
   "technique": TECH},
 }
